@@ -42,15 +42,18 @@ def _one(args):
     detail = {"X": Xint, "sensitive_ids": sens_ids}
     sig0 = {"K": K, "rank": case["rank"]}
     alphas = [0.0, 0.5, 1.0]
-    for container in ("ndarray", "frame"):
+    for container in ("ndarray", "frame", "int_ndarray", "int_frame"):
         for a_i, alpha in enumerate(alphas):
             exp = case["blend"][a_i]
+            if container.startswith("int") and alpha == 0.5:
+                continue
+            dt = int if container.startswith("int") else float          # integer-typed input is a legitimate real matrix too
             try:
-                if container == "ndarray":
-                    X = np.array(Xint, dtype=float)
+                if container.endswith("ndarray"):
+                    X = np.array(Xint, dtype=dt)
                     cr = CorrelationRemover(sensitive_feature_ids=list(sens_ids), alpha=alpha)
                 else:
-                    X = pd.DataFrame(np.array(Xint, dtype=float), columns=[f"c{p}" for p in range(K + M)])
+                    X = pd.DataFrame(np.array(Xint, dtype=dt), columns=[f"c{p}" for p in range(K + M)])
                     cr = CorrelationRemover(sensitive_feature_ids=[f"c{p}" for p in sens_ids], alpha=alpha)
                 o1 = np.asarray(cr.fit_transform(X))
                 o2 = np.asarray(CorrelationRemover(**cr.get_params()).fit(X).transform(X))
@@ -86,7 +89,7 @@ def _one(args):
                     new[pos_of[j]] = float(case["new_row"]["s"][j])
                 for m in range(M):
                     new[pos_of[K + m]] = float(case["new_row"]["z"][m])
-                Xn = np.array([new]) if container == "ndarray" else pd.DataFrame([new], columns=[f"c{p}" for p in range(K + M)])
+                Xn = np.array([new]) if container.endswith("ndarray") else pd.DataFrame([new], columns=[f"c{p}" for p in range(K + M)])
                 on = np.asarray(cr.transform(Xn))
                 for c_i, p in enumerate(other_pos):
                     m = layout[p] - K
